@@ -598,3 +598,5 @@ func (w *world) build() {
 	ps.InitContext(env, nil, nil)
 	w.ps, w.env = ps, env
 }
+
+func hostName(h string) host.Name { return host.Name(h) }
